@@ -15,7 +15,7 @@ import metric_learn as ml
 
 PID = 'C13'
 LEVEL = 'exploration'
-RULE = ('SDML x prior {identity, covariance, random, SPD array} x balance_param in {0.1, 0.5, 0.9} x b_max (b_max = largest balance '
+RULE = ('SDML x prior {identity, covariance, random, SPD array in C and in Fortran order} x balance_param in {0.1, 0.5, 0.9} x b_max (b_max = largest balance '
         'keeping S = M0^-1 + balance sum y v v^T positive definite) and, for the failure clause, {2, 10, 100} x b_max x sparsity_param in '
         '{1e-3, 1e-2, 1e-1, 1} x datasets; SDML_Supervised x prior x seeds. non-trivial (measured per case) = the optimum of each '
         'mutated problem (prior instead of its inverse, labels dropped, balance dropped) differs in objective by > 100 x tolerance')
@@ -23,7 +23,7 @@ ASSUMPTIONS = ['Reference optimum: mc/refmodel/glasso_admm.py solved to 1e-13, a
                'tolerance on the objective 2e-4 (1 + |obj|): the installed graphical lasso stops at an absolute dual gap of 1e-4, which bounds its '
                'sub-optimality; runs that report non-convergence are counted, not judged.',
                'Failure clause: any outcome must be RuntimeError or a finite symmetric positive definite matrix.']
-PRIORS = ['identity', 'covariance', 'random', 'array']
+PRIORS = ['identity', 'covariance', 'random', 'array', 'array_F']      # array_F: the same SPD array, Fortran-ordered
 SPARS = [1e-3, 1e-2, 1e-1, 1.0]
 
 
@@ -125,7 +125,7 @@ def run_case(spec):
     kind, dsn, pr, seed = spec
     ds = data.dataset('R', seed) if dsn == 'R' else data.dataset(dsn)
     d = ds.d
-    prv = data.spd(d) if pr == 'array' else pr
+    prv = data.spd(d) if pr == 'array' else (np.asfortranarray(data.spd(d)) if pr == 'array_F' else pr)
     viol, sigs = [], set()
     stats = {'solver_did_not_converge_not_judged': 0, 'reference_not_certified': 0, '_worst': 0.0, 'cases_distinguishing_all_mutated_problems': 0}
     evals = 0
